@@ -154,3 +154,44 @@ Proof.
 Qed.
 Theorem quantile_order_invariant q l l' : Permutation l l' -> quantile q l = quantile q l'.
 Proof. intros P. unfold quantile. rewrite (zsort_order_invariant l l' P). reflexivity. Qed.
+
+(* ---- C02: a sufficient condition for independence that can be read off two components: disjoint footprints (Bernstein's conditions).
+   The shared state is a family of named arrays; a component has a read set R and a write set W. *)
+Section Footprints.
+  Variables V mstate draws gstate : Type.
+  Notation shared := (string -> V).
+  Notation comp := (comp shared mstate draws gstate).
+  Definition mst (r : mstate * shared * gstate) : mstate := fst (fst r).
+  Definition shr (r : mstate * shared * gstate) : shared := snd (fst r).
+  Definition gst (r : mstate * shared * gstate) : gstate := snd r.
+  Definition footprint (c : comp) (R W : string -> bool) : Prop :=
+    (forall d ti m s g k, W k = false -> shr (cstep _ _ _ _ c d ti m s g) k = s k) /\
+    (forall d ti m s s' g, (forall k, R k = true -> s k = s' k) ->
+        mst (cstep _ _ _ _ c d ti m s g) = mst (cstep _ _ _ _ c d ti m s' g) /\
+        forall k, W k = true -> shr (cstep _ _ _ _ c d ti m s g) k = shr (cstep _ _ _ _ c d ti m s' g) k) /\
+    (forall d ti m s g, gst (cstep _ _ _ _ c d ti m s g) = g).
+  Theorem disjoint_footprints_commute (c1 c2 : comp) R1 W1 R2 W2 :
+    footprint c1 R1 W1 -> footprint c2 R2 W2 ->
+    (forall k, W1 k = true -> W2 k = false /\ R2 k = false) -> (forall k, W2 k = true -> R1 k = false) ->
+    forall d1 d2 ti m1 m2 s g,
+      let r1 := cstep _ _ _ _ c1 d1 ti m1 s g in let r12 := cstep _ _ _ _ c2 d2 ti m2 (shr r1) (gst r1) in
+      let q2 := cstep _ _ _ _ c2 d2 ti m2 s g in let q21 := cstep _ _ _ _ c1 d1 ti m1 (shr q2) (gst q2) in
+      mst r1 = mst q21 /\ mst r12 = mst q2 /\ (forall k, shr r12 k = shr q21 k) /\ gst r12 = gst q21.
+  Proof.
+    intros (Wr1 & Rd1 & G1) (Wr2 & Rd2 & G2) D12 D21 d1 d2 ti m1 m2 s g. cbn zeta.
+    set (r1 := cstep _ _ _ _ c1 d1 ti m1 s g). set (q2 := cstep _ _ _ _ c2 d2 ti m2 s g).
+    assert (Gr1 : gst r1 = g) by apply G1. assert (Gq2 : gst q2 = g) by apply G2. rewrite Gr1, Gq2.
+    (* c2 sees the same read set after c1 *)
+    assert (A2 : forall k, R2 k = true -> shr r1 k = s k).
+    { intros k Hk. apply Wr1. destruct (W1 k) eqn:E; [|reflexivity]. destruct (D12 k E) as [_ C]. congruence. }
+    assert (A1 : forall k, R1 k = true -> shr q2 k = s k).
+    { intros k Hk. apply Wr2. destruct (W2 k) eqn:E; [|reflexivity]. pose proof (D21 k E). congruence. }
+    destruct (Rd2 d2 ti m2 (shr r1) s g A2) as [M2 S2]. destruct (Rd1 d1 ti m1 (shr q2) s g A1) as [M1 S1].
+    split; [symmetry; exact M1|]. split; [exact M2|]. split; [|rewrite G2, G1; reflexivity].
+    intros k. destruct (W1 k) eqn:E1.
+    - destruct (D12 k E1) as [E2 _]. rewrite (Wr2 d2 ti m2 (shr r1) g k E2). rewrite (S1 k E1). reflexivity.
+    - rewrite (Wr1 d1 ti m1 (shr q2) g k E1). destruct (W2 k) eqn:E2.
+      + apply S2. exact E2.
+      + rewrite (Wr2 d2 ti m2 (shr r1) g k E2). transitivity (s k); [apply Wr1; exact E1|symmetry; apply Wr2; exact E2].
+  Qed.
+End Footprints.
